@@ -13,6 +13,7 @@ import (
 	"time"
 
 	"github.com/tinode/chat/server/auth"
+	adapter "github.com/tinode/chat/server/db"
 	"github.com/tinode/chat/server/store"
 	"github.com/tinode/chat/server/store/types"
 	"github.com/tinode/chat/server/zzverif/memdb"
@@ -83,7 +84,17 @@ func vmNew(t *testing.T) *memdb.Adapter {
 	db := memdb.New()
 	vmOK(t, db.Open(nil), "Open")
 	vmOK(t, db.CreateDb(true), "CreateDb")
+	t.Cleanup(func() { vmCollect(db) })
 	return db
+}
+
+// vmSeen collects names of the adapter methods called by the tests (from the journals).
+var vmSeen = map[string]bool{}
+
+func vmCollect(db *memdb.Adapter) {
+	for _, e := range db.Journal() {
+		vmSeen[e.Name] = true
+	}
 }
 
 type vmPublic struct {
@@ -134,6 +145,8 @@ func vmSeqs(msgs []types.Message) []int {
 	}
 	return out
 }
+
+type adapterMethods = adapter.Adapter
 
 var _ = fmt.Sprint
 var _ = strings.Contains
@@ -203,6 +216,7 @@ func TestVerifMemdbGeneral(t *testing.T) {
 	vmEq(t, len(subs), 3, "default maxResults")
 
 	// Reset keeps open flag.
+	vmCollect(db)
 	db.Reset()
 	vmTrue(t, db.IsOpen(), "Reset keeps open")
 	vmEq(t, db.Calls(), 0, "Reset clears calls")
@@ -700,4 +714,643 @@ func TestVerifMemdbTopicsSubs(t *testing.T) {
 	// Hard without isChan leaves channel subscriptions behind.
 	vmOK(t, db.TopicDelete("grpA", false, true), "TopicDelete grpA hard")
 	vmTrue(t, db.Topic("grpA") == nil && len(db.Messages("grpA")) == 0 && len(db.TopicTags("grpA")) == 0 && len(db.SubsOf("grpA")) == 0, "grpA gone with messages, tags, subs")
+}
+
+// ---- Messages -----------------------------------------------------------------------------------
+
+func TestVerifMemdbMessages(t *testing.T) {
+	defer vmDone(t)
+	db := vmNew(t)
+	vmUser(t, db, vmU1, 1)
+	vmUser(t, db, vmU2, 2)
+	vmGrp(t, db, "grpM", vmU1, 5)
+	vmOK(t, db.TopicShare([]*types.Subscription{vmSub("grpM", vmU2, 6, types.ModeCPublic, types.ModeCPublic, nil)}), "share")
+
+	var first *types.Message
+	for i := 1; i <= 10; i++ {
+		m := vmMsg(t, db, "grpM", i, vmU1, map[string]any{"txt": fmt.Sprint("m", i)})
+		if i == 1 {
+			first = m
+		}
+		vmEq(t, m.Uid(), types.Uid(i), "message id is replaced by the row id")
+	}
+	// Duplicate (topic, seqid) and missing topic: raw errors.
+	dup := &types.Message{SeqId: 3, Topic: "grpM", From: vmU1.String(), Content: "dup"}
+	vmErrIs(t, db.MessageSave(dup), memdb.ErrDupEntry, "duplicate seqid")
+	vmErrIs(t, db.MessageSave(&types.Message{SeqId: 1, Topic: "grpNone"}), memdb.ErrForeignKey, "message to a missing topic")
+	vmEq(t, len(db.Messages("grpM")), 10, "failed saves have no effect")
+	// Isolation of content.
+	first.Content.(map[string]any)["txt"] = "mutated"
+
+	all, err := db.MessageGetAll("grpM", vmU2, nil)
+	vmOK(t, err, "MessageGetAll")
+	vmEq(t, vmSeqs(all), []int{10, 9, 8, 7, 6, 5, 4, 3, 2, 1}, "newest first")
+	last := all[9]
+	vmEq(t, last.Content, any(map[string]any{"txt": "m1"}), "content not aliased, JSON round trip")
+	vmEq(t, last.Head, types.MessageHeaders{"mime": "text/plain"}, "head")
+	vmTrue(t, last.From == vmU1.String() && last.Topic == "grpM" && last.Id == "" && last.DeletedAt == nil && last.CreatedAt.Equal(vmTs(101)), "message fields")
+
+	get := func(forUser types.Uid, o *types.QueryOpt) []int {
+		t.Helper()
+		msgs, err := db.MessageGetAll("grpM", forUser, o)
+		vmOK(t, err, "MessageGetAll")
+		return vmSeqs(msgs)
+	}
+	vmEq(t, get(vmU2, &types.QueryOpt{Since: 3, Before: 6}), []int{5, 4, 3}, "[Since, Before)")
+	vmEq(t, get(vmU2, &types.QueryOpt{Since: 8}), []int{10, 9, 8}, "Since only")
+	vmEq(t, get(vmU2, &types.QueryOpt{Before: 3}), []int{2, 1}, "Before only")
+	vmEq(t, get(vmU2, &types.QueryOpt{Before: 1}), []int{}, "Before=1: nothing")
+	vmEq(t, get(vmU2, &types.QueryOpt{Limit: 3}), []int{10, 9, 8}, "Limit takes the newest")
+	vmEq(t, get(vmU2, &types.QueryOpt{Since: 2, Before: 9, Limit: 2}), []int{8, 7}, "range + limit")
+	vmEq(t, get(vmU2, &types.QueryOpt{}), []int{10, 9, 8, 7, 6, 5, 4, 3, 2, 1}, "zero opts = no bounds")
+
+	// Limit default is 100 regardless of SetMaxResults.
+	vmOK(t, db.SetMaxResults(3), "SetMaxResults")
+	vmEq(t, len(get(vmU2, nil)), 10, "maxResults does not apply to messages")
+	vmOK(t, db.SetMaxResults(0), "SetMaxResults")
+	vmGrp(t, db, "grpBig", vmU1, 7)
+	for i := 1; i <= 105; i++ {
+		vmOK(t, db.MessageSave(&types.Message{SeqId: i, Topic: "grpBig", From: vmU1.String()}), "save")
+	}
+	big, _ := db.MessageGetAll("grpBig", vmU1, &types.QueryOpt{Limit: 1000})
+	vmTrue(t, len(big) == 100 && big[0].SeqId == 105, "at most 100 messages")
+
+	// Soft delete for U2: ranges [2,4) and single 7.
+	vmOK(t, db.MessageDeleteList("grpM", &types.DelMessage{Topic: "grpM", DelId: 1, DeletedFor: vmU2.String(),
+		SeqIdRanges: []types.Range{{Low: 2, Hi: 4}, {Low: 7}}}), "soft delete")
+	vmEq(t, db.DelLog("grpM"), []memdb.DelRow{{DelId: 1, DeletedFor: vmU2, Low: 2, Hi: 4}, {DelId: 1, DeletedFor: vmU2, Low: 7, Hi: 8}}, "dellog rows, Hi=0 stored as Low+1")
+	vmEq(t, get(vmU2, nil), []int{10, 9, 8, 6, 5, 4, 1}, "soft-deleted hidden for U2")
+	vmEq(t, get(vmU1, nil), []int{10, 9, 8, 7, 6, 5, 4, 3, 2, 1}, "still visible for U1")
+	vmEq(t, len(db.Messages("grpM")), 10, "soft delete keeps rows")
+	vmTrue(t, db.Messages("grpM")[1].Content != nil, "soft delete keeps content")
+
+	// Attachments on 5 and 9, then hard delete [5,7) and 9.
+	fd := &types.FileDef{Location: "loc1"}
+	fd.SetUid(types.Uid(0xF1))
+	vmOK(t, db.FileStartUpload(fd), "FileStartUpload")
+	vmOK(t, db.FileLinkAttachments("", types.ZeroUid, types.Uid(5), []string{fd.Id}), "link to msg 5")
+	vmOK(t, db.FileLinkAttachments("", types.ZeroUid, types.Uid(9), []string{fd.Id}), "link to msg 9")
+	vmEq(t, len(db.FileLinks()), 2, "two links")
+	vmOK(t, db.MessageDeleteList("grpM", &types.DelMessage{Topic: "grpM", DelId: 2, SeqIdRanges: []types.Range{{Low: 5, Hi: 7}, {Low: 9}}}), "hard delete")
+	vmEq(t, len(db.FileLinks()), 0, "links of hard-deleted messages removed")
+	stubs := db.Messages("grpM")
+	vmEq(t, len(stubs), 10, "hard delete keeps stubs")
+	for _, s := range stubs {
+		hard := s.SeqId == 5 || s.SeqId == 6 || s.SeqId == 9
+		if hard != (s.DelId == 2 && s.DeletedAt != nil && s.Content == nil && s.Head == nil) {
+			t.Fatalf("message %d: wrong hard-delete state %+v", s.SeqId, s)
+		}
+	}
+	vmEq(t, get(vmU1, nil), []int{10, 8, 7, 4, 3, 2, 1}, "hard-deleted hidden for everybody")
+	vmEq(t, get(vmU2, nil), []int{10, 8, 4, 1}, "both kinds hidden for U2")
+	// Single range variant (BETWEEN), already deleted messages keep their delid.
+	vmOK(t, db.MessageDeleteList("grpM", &types.DelMessage{Topic: "grpM", DelId: 3, SeqIdRanges: []types.Range{{Low: 8, Hi: 11}}}), "hard delete single range")
+	vmEq(t, db.Messages("grpM")[8].DelId, 2, "message 9 keeps the first delid")
+	vmEq(t, db.Messages("grpM")[9].DelId, 3, "message 10 deleted by op 3")
+	vmErrIs(t, db.MessageDeleteList("grpNone", &types.DelMessage{DelId: 1, SeqIdRanges: []types.Range{{Low: 1}}}), memdb.ErrForeignKey, "dellog for a missing topic")
+
+	// MessageGetDeleted
+	del, err := db.MessageGetDeleted("grpM", vmU2, nil)
+	vmOK(t, err, "MessageGetDeleted")
+	vmEq(t, del, []types.DelMessage{
+		{Topic: "grpM", DeletedFor: vmU2.String(), DelId: 1, SeqIdRanges: []types.Range{{Low: 2, Hi: 4}, {Low: 7}}},
+		{Topic: "grpM", DelId: 2, SeqIdRanges: []types.Range{{Low: 5, Hi: 7}, {Low: 9}}},
+		{Topic: "grpM", DelId: 3, SeqIdRanges: []types.Range{{Low: 8, Hi: 11}}},
+	}, "deleted for U2")
+	del, _ = db.MessageGetDeleted("grpM", vmU1, nil)
+	vmTrue(t, len(del) == 2 && del[0].DelId == 2, "U1 sees hard deletions only")
+	del, _ = db.MessageGetDeleted("grpM", vmU2, &types.QueryOpt{Since: 2, Before: 3})
+	vmTrue(t, len(del) == 1 && del[0].DelId == 2, "delid in [Since, Before)")
+	del, _ = db.MessageGetDeleted("grpM", vmU2, &types.QueryOpt{Limit: 3})
+	vmTrue(t, len(del) == 2 && len(del[1].SeqIdRanges) == 1, "limit counts dellog rows")
+
+	// Delete all.
+	vmOK(t, db.FileLinkAttachments("", types.ZeroUid, types.Uid(1), []string{fd.Id}), "link to msg 1")
+	vmOK(t, db.MessageDeleteList("grpM", nil), "delete all")
+	vmTrue(t, len(db.Messages("grpM")) == 0 && len(db.DelLog("grpM")) == 0 && len(db.FileLinks()) == 0, "all messages, dellog and links gone")
+	vmEq(t, len(db.Messages("grpBig")), 105, "other topic untouched")
+}
+
+// ---- Devices, files, persistent cache -----------------------------------------------------------------
+
+func TestVerifMemdbDevicesFilesPCache(t *testing.T) {
+	defer vmDone(t)
+	db := vmNew(t)
+	vmUser(t, db, vmU1, 1)
+	vmUser(t, db, vmU2, 2)
+	vmGrp(t, db, "grpF", vmU1, 3)
+
+	// Devices.
+	vmOK(t, db.DeviceUpsert(vmU1, &types.DeviceDef{DeviceId: "d1", Platform: "ios", LastSeen: vmTs(1), Lang: "en"}), "DeviceUpsert")
+	vmOK(t, db.DeviceUpsert(vmU1, &types.DeviceDef{DeviceId: "d2", Platform: "web", LastSeen: vmTs(2), Lang: "de"}), "DeviceUpsert")
+	vmOK(t, db.DeviceUpsert(vmU2, &types.DeviceDef{DeviceId: "d1", Platform: "android", LastSeen: vmTs(3), Lang: "fr"}), "device moves to U2")
+	vmErrIs(t, db.DeviceUpsert(vmU4, &types.DeviceDef{DeviceId: "d9"}), memdb.ErrForeignKey, "device of a missing user")
+	devs, n, err := db.DeviceGetAll(vmU1, vmU2, vmU3)
+	vmOK(t, err, "DeviceGetAll")
+	vmEq(t, n, 2, "device count")
+	vmEq(t, devs, map[types.Uid][]types.DeviceDef{
+		vmU1: {{DeviceId: "d2", Platform: "web", LastSeen: vmTs(2), Lang: "de"}},
+		vmU2: {{DeviceId: "d1", Platform: "android", LastSeen: vmTs(3), Lang: "fr"}}}, "devices")
+	vmErrIs(t, db.DeviceDelete(vmU1, "d1"), types.ErrNotFound, "d1 is not U1's any more")
+	vmOK(t, db.DeviceDelete(vmU2, "d1"), "DeviceDelete")
+	vmOK(t, db.DeviceDelete(vmU1, ""), "DeviceDelete all")
+	vmErrIs(t, db.DeviceDelete(vmU1, ""), types.ErrNotFound, "no devices")
+
+	// Files.
+	mk := func(id types.Uid, at int, loc string) *types.FileDef {
+		fd := &types.FileDef{User: vmU1.String(), MimeType: "image/png", Location: loc, Status: types.UploadStarted}
+		fd.SetUid(id)
+		fd.CreatedAt, fd.UpdatedAt = vmTs(at), vmTs(at)
+		vmOK(t, db.FileStartUpload(fd), "FileStartUpload")
+		return fd
+	}
+	f1, f2, f3, f4 := mk(0xF1, 1, "loc1"), mk(0xF2, 2, "loc2"), mk(0xF3, 3, "loc3"), mk(0xF4, 4, "")
+	vmErrIs(t, db.FileStartUpload(f1), memdb.ErrDupEntry, "duplicate file id")
+	res, err := db.FileFinishUpload(f1, true, 1234)
+	vmOK(t, err, "FileFinishUpload")
+	vmTrue(t, res == f1 && f1.Status == types.UploadCompleted && f1.Size == 1234, "fd updated and returned")
+	g, err := db.FileGet(f1.Id)
+	vmOK(t, err, "FileGet")
+	vmTrue(t, g != f1 && g.Id == f1.Id && g.User == vmU1.String() && g.Status == types.UploadCompleted && g.Size == 1234 && g.Location == "loc1" && g.MimeType == "image/png", "FileGet")
+	_, err = db.FileGet("!!")
+	vmErrIs(t, err, types.ErrMalformed, "FileGet bad id")
+	f5 := mk(0xF5, 5, "loc5")
+	res, err = db.FileFinishUpload(f5, false, 0)
+	vmTrue(t, err == nil && res.Status == types.UploadFailed, "failed upload")
+	g, err = db.FileGet(f5.Id)
+	vmTrue(t, g == nil && err == nil, "failed upload record deleted")
+
+	// Links: message gets all, topic/user only the first and replaces the previous one.
+	m := vmMsg(t, db, "grpF", 1, vmU1, "att")
+	vmOK(t, db.FileLinkAttachments("grpF", vmU1, m.Uid(), []string{f1.Id, f2.Id}), "msg link (msg id wins over topic and user)")
+	vmEq(t, len(db.FileLinks()), 2, "message linked to both files")
+	vmTrue(t, db.FileLinks()[0].MsgTopic == "grpF" && db.FileLinks()[0].MsgSeqId == 1 && db.FileLinks()[0].Topic == "", "msg link")
+	vmOK(t, db.FileLinkAttachments("grpF", types.ZeroUid, types.ZeroUid, []string{f2.Id, f3.Id}), "topic avatar")
+	vmEq(t, len(db.FileLinks()), 3, "topic linked to the first file only")
+	vmOK(t, db.FileLinkAttachments("grpF", types.ZeroUid, types.ZeroUid, []string{f3.Id}), "new topic avatar")
+	links := db.FileLinks()
+	vmTrue(t, len(links) == 3 && links[2].Topic == "grpF" && links[2].File == f3.Uid(), "previous topic avatar link replaced")
+	vmOK(t, db.FileLinkAttachments("", vmU1, types.ZeroUid, []string{f2.Id}), "user avatar")
+	vmOK(t, db.FileLinkAttachments("", vmU1, types.ZeroUid, []string{f3.Id}), "new user avatar")
+	links = db.FileLinks()
+	vmTrue(t, len(links) == 4 && links[3].User == vmU1 && links[3].File == f3.Uid(), "previous user avatar link replaced")
+	vmErrIs(t, db.FileLinkAttachments("", types.ZeroUid, types.ZeroUid, []string{f1.Id}), types.ErrMalformed, "no target")
+	vmErrIs(t, db.FileLinkAttachments("grpF", types.ZeroUid, types.ZeroUid, nil), types.ErrMalformed, "no files")
+	vmErrIs(t, db.FileLinkAttachments("grpF", types.ZeroUid, types.ZeroUid, []string{"??"}), types.ErrMalformed, "bad file id")
+	vmErrIs(t, db.FileLinkAttachments("grpF", types.ZeroUid, types.ZeroUid, []string{types.Uid(0xFF).String()}), memdb.ErrForeignKey, "missing file")
+	vmTrue(t, len(db.FileLinks()) == 4 && db.FileLinks()[2].Topic == "grpF", "failed link call rolled back (old avatar link is still there)")
+
+	// DeleteUnused: f2 (unlinked since the avatars moved to f3? no: f2 is linked to the message), f4 unlinked.
+	locs, err := db.FileDeleteUnused(vmTs(4), 0)
+	vmOK(t, err, "FileDeleteUnused")
+	vmEq(t, len(locs), 0, "f4 is not older than its own updatedat")
+	locs, _ = db.FileDeleteUnused(vmTs(100), 0)
+	vmEq(t, len(locs), 0, "f4 has no location: deleted but not reported")
+	vmEq(t, len(db.Files()), 3, "f4 record deleted")
+	// Unlink f2 by hard-deleting the message; f1 too.
+	vmOK(t, db.MessageDeleteList("grpF", &types.DelMessage{DelId: 1, SeqIdRanges: []types.Range{{Low: 1}}}), "hard delete msg")
+	locs, _ = db.FileDeleteUnused(time.Time{}, 1)
+	vmEq(t, locs, []string{"loc1"}, "limit 1, insertion order")
+	locs, _ = db.FileDeleteUnused(time.Time{}, 0)
+	vmEq(t, locs, []string{"loc2"}, "the rest; linked f3 stays")
+	vmTrue(t, len(db.Files()) == 1 && db.Files()[0].Id == f3.Id, "only the linked file is left")
+	_ = f4
+
+	// Persistent cache.
+	vmOK(t, db.PCacheUpsert("k:1", "v1", true), "PCacheUpsert insert")
+	vmErrIs(t, db.PCacheUpsert("k:1", "v2", true), types.ErrDuplicate, "failOnDuplicate")
+	vmOK(t, db.PCacheUpsert("k:1", "v3", false), "replace")
+	v, err := db.PCacheGet("k:1")
+	vmTrue(t, v == "v3" && err == nil, "PCacheGet")
+	_, err = db.PCacheGet("nope")
+	vmErrIs(t, err, types.ErrNotFound, "PCacheGet missing")
+	vmErrIs(t, db.PCacheUpsert("a%b", "v", false), types.ErrMalformed, "% in key")
+	vmOK(t, db.PCacheUpsert("k:2", "v", false), "k:2")
+	vmOK(t, db.PCacheUpsert("z:1", "v", false), "z:1")
+	vmErrIs(t, db.PCacheExpire("", types.TimeNow()), types.ErrMalformed, "empty prefix")
+	vmOK(t, db.PCacheExpire("k:", types.TimeNow().Add(time.Hour)), "PCacheExpire")
+	_, err = db.PCacheGet("k:2")
+	vmErrIs(t, err, types.ErrNotFound, "expired")
+	_, err = db.PCacheGet("z:1")
+	vmOK(t, err, "other prefix stays")
+	vmOK(t, db.PCacheExpire("z:", vmTs(0)), "PCacheExpire old only")
+	_, err = db.PCacheGet("z:1")
+	vmOK(t, err, "not old enough")
+	vmOK(t, db.PCacheDelete("z:1"), "PCacheDelete")
+	vmOK(t, db.PCacheDelete("z:1"), "PCacheDelete missing is fine")
+	_, err = db.PCacheGet("z:1")
+	vmErrIs(t, err, types.ErrNotFound, "deleted")
+}
+
+// ---- Search -------------------------------------------------------------------------------------
+
+func TestVerifMemdbSearch(t *testing.T) {
+	defer vmDone(t)
+	db := vmNew(t)
+	vmUser(t, db, vmU1, 1, "a", "b", "c")
+	vmUser(t, db, vmU2, 2, "a", "x")
+	vmUser(t, db, vmU3, 3, "b", "c", "x")
+	vmUser(t, db, vmU4, 4, "zzz")
+
+	users := func(subs []types.Subscription) []string {
+		out := []string{}
+		for _, s := range subs {
+			out = append(out, s.User)
+		}
+		return out
+	}
+	// Optional only: ordered by number of matches, ties by insertion order; the caller is skipped.
+	found, err := db.FindUsers(vmU4, nil, []string{"a", "b", "c"}, false)
+	vmOK(t, err, "FindUsers")
+	vmEq(t, users(found), []string{vmU1.String(), vmU3.String(), vmU2.String()}, "order by matches")
+	vmEq(t, found[0].Private, any([]string{"a", "b", "c"}), "found tags in Private")
+	vmEq(t, found[2].Private, any([]string{"a"}), "found tags of U2")
+	vmTrue(t, found[0].GetDefaultAccess() != nil && found[0].GetDefaultAccess().Auth == types.ModeCAuth, "default access")
+	vmEq(t, found[0].GetPublic().(map[string]any)["fn"], any("user-"+vmU1.String()), "public")
+	vmTrue(t, found[0].CreatedAt.Equal(vmTs(1)) && found[0].Topic == "", "times, no topic")
+	found, _ = db.FindUsers(vmU1, nil, []string{"a", "b", "c"}, false)
+	vmEq(t, users(found), []string{vmU3.String(), vmU2.String()}, "caller skipped")
+	// Required: AND of ORs.
+	found, _ = db.FindUsers(vmU4, [][]string{{"a"}, {"x", "c"}}, nil, false)
+	vmEq(t, users(found), []string{vmU1.String(), vmU2.String()}, "(a) AND (x OR c)")
+	found, _ = db.FindUsers(vmU4, [][]string{{"a"}, {}, {"x"}}, []string{"b"}, false)
+	vmEq(t, users(found), []string{vmU2.String()}, "empty group ignored, optional does not relax required")
+	found, _ = db.FindUsers(vmU4, [][]string{{"nope"}}, []string{"a"}, false)
+	vmEq(t, len(found), 0, "required tag missing")
+	// activeOnly
+	vmOK(t, db.UserUpdate(vmU1, map[string]any{"State": types.StateSuspended}), "suspend")
+	found, _ = db.FindUsers(vmU4, nil, []string{"a"}, true)
+	vmEq(t, users(found), []string{vmU2.String()}, "activeOnly")
+	found, _ = db.FindUsers(vmU4, nil, []string{"a"}, false)
+	vmEq(t, len(found), 2, "not activeOnly")
+	// limit = maxResults, applied before skipping the caller.
+	vmOK(t, db.SetMaxResults(1), "SetMaxResults")
+	found, _ = db.FindUsers(vmU1, nil, []string{"a", "b", "c"}, false)
+	vmEq(t, len(found), 0, "QUIRK: the caller takes the only slot of the LIMIT")
+	vmOK(t, db.SetMaxResults(0), "SetMaxResults")
+	_, err = db.FindUsers(vmU1, nil, nil, false)
+	vmTrue(t, err != nil, "no tags at all")
+	// Search uses the index table, Private the denormalized column.
+	_, err = db.UserUpdateTags(vmU4, []string{"a"}, nil, nil)
+	vmOK(t, err, "UserUpdateTags")
+	found, _ = db.FindUsers(vmU1, [][]string{{"zzz"}}, []string{"a"}, false)
+	vmTrue(t, len(found) == 1 && found[0].User == vmU4.String(), "found by new tags")
+	vmEq(t, found[0].Private, any([]string{"zzz", "a"}), "both tags reported")
+
+	// Topics.
+	vmGrp(t, db, "grpT1", vmU1, 10, "travel", "flowers")
+	vmGrp(t, db, "grpT2", vmU1, 11, "travel")
+	vmOK(t, db.TopicCreate(&types.Topic{ObjHeader: types.ObjHeader{Id: "grpT3", CreatedAt: vmTs(12)}, UseBt: true, Tags: types.StringSlice{"flowers", "travel", "x"},
+		Access: types.DefaultAccess{Auth: types.ModeCReadOnly}, Public: "chan"}), "channel")
+	tf, err := db.FindTopics(nil, []string{"travel", "flowers", "x"}, false)
+	vmOK(t, err, "FindTopics")
+	names := []string{}
+	for _, s := range tf {
+		names = append(names, s.Topic)
+	}
+	vmEq(t, names, []string{"chnT3", "grpT1", "grpT2"}, "topics by matches, channel renamed")
+	vmTrue(t, tf[0].User == "" && tf[0].GetPublic() == any("chan") && tf[0].GetDefaultAccess().Auth == types.ModeCReadOnly, "topic fields")
+	vmEq(t, tf[0].Private, any([]string{"flowers", "travel", "x"}), "topic found tags")
+	tf, _ = db.FindTopics([][]string{{"flowers"}}, nil, false)
+	vmEq(t, len(tf), 2, "required")
+	vmOK(t, db.TopicDelete("grpT1", false, false), "soft delete topic")
+	tf, _ = db.FindTopics([][]string{{"flowers"}}, nil, true)
+	vmTrue(t, len(tf) == 1 && tf[0].Topic == "chnT3", "activeOnly hides deleted topic")
+	tf, _ = db.FindTopics([][]string{{"flowers"}}, nil, false)
+	vmEq(t, len(tf), 2, "soft-deleted topic is found without activeOnly")
+}
+
+// ---- UserDelete -----------------------------------------------------------------------------------
+
+// vmWorld: U1 owns grpW (U2 subscribed, U3 channel reader), p2p U1-U2, p2p U2-U3, U2 owns grpX (U1 subscribed).
+func vmWorld(t *testing.T) (*memdb.Adapter, string, string) {
+	db := vmNew(t)
+	for i, uid := range []types.Uid{vmU1, vmU2, vmU3} {
+		vmUser(t, db, uid, i+1, "tag"+uid.String())
+		vmOK(t, db.TopicShare([]*types.Subscription{vmSub(uid.UserId(), uid, i+1, types.ModeCSelf, types.ModeCSelf, nil)}), "me")
+		vmOK(t, db.AuthAddRecord(uid, "basic", "basic:u"+uid.String(), auth.LevelAuth, []byte("s"), time.Time{}), "auth")
+		_, err := db.CredUpsert(&types.Credential{User: uid.String(), Method: "email", Value: uid.String() + "@x", Done: true})
+		vmOK(t, err, "cred")
+		vmOK(t, db.DeviceUpsert(uid, &types.DeviceDef{DeviceId: "dev" + uid.String()}), "dev")
+	}
+	vmGrp(t, db, "grpW", vmU1, 10, "wtag")
+	vmOK(t, db.TopicUpdate("grpW", map[string]any{"UseBt": true}), "channel")
+	vmGrp(t, db, "grpX", vmU2, 11)
+	vmOK(t, db.TopicShare([]*types.Subscription{
+		vmSub("grpW", vmU2, 12, types.ModeCPublic, types.ModeCPublic, nil),
+		vmSub("chnW", vmU3, 12, types.ModeCChnReader, types.ModeCChnReader, nil),
+		vmSub("grpX", vmU1, 12, types.ModeCPublic, types.ModeCPublic, nil)}), "subs")
+	p12, p23 := vmU1.P2PName(vmU2), vmU2.P2PName(vmU3)
+	vmOK(t, db.TopicCreateP2P(vmSub(p12, vmU1, 13, types.ModeCP2P, types.ModeCP2P, nil), vmSub(p12, vmU2, 13, types.ModeCP2P, types.ModeCP2P, nil)), "p12")
+	vmOK(t, db.TopicCreateP2P(vmSub(p23, vmU2, 14, types.ModeCP2P, types.ModeCP2P, nil), vmSub(p23, vmU3, 14, types.ModeCP2P, types.ModeCP2P, nil)), "p23")
+	vmMsg(t, db, "grpW", 1, vmU2, "in W")
+	vmMsg(t, db, "grpX", 1, vmU1, "in X by U1")
+	vmMsg(t, db, p12, 1, vmU1, "p2p")
+	vmOK(t, db.MessageDeleteList("grpX", &types.DelMessage{DelId: 1, DeletedFor: vmU1.String(), SeqIdRanges: []types.Range{{Low: 1}}}), "U1 soft-deletes in X")
+	vmOK(t, db.MessageDeleteList("grpW", &types.DelMessage{DelId: 1, DeletedFor: vmU2.String(), SeqIdRanges: []types.Range{{Low: 1}}}), "U2 soft-deletes in W")
+	fd := &types.FileDef{Location: "avatar"}
+	fd.SetUid(0xA1)
+	vmOK(t, db.FileStartUpload(fd), "file")
+	vmOK(t, db.FileLinkAttachments("", vmU1, types.ZeroUid, []string{fd.Id}), "U1 avatar")
+	fw := &types.FileDef{Location: "wavatar"}
+	fw.SetUid(0xA2)
+	vmOK(t, db.FileStartUpload(fw), "file")
+	vmOK(t, db.FileLinkAttachments("grpW", types.ZeroUid, types.ZeroUid, []string{fw.Id}), "grpW avatar")
+	return db, p12, p23
+}
+
+func TestVerifMemdbUserDelete(t *testing.T) {
+	defer vmDone(t)
+
+	// Soft.
+	db, p12, p23 := vmWorld(t)
+	vmOK(t, db.UserDelete(vmU1, false), "UserDelete soft")
+	u, err := db.UserGet(vmU1)
+	vmTrue(t, u == nil && err == nil, "soft-deleted user is not returned by UserGet")
+	vmTrue(t, db.User(vmU1) != nil && db.User(vmU1).State == types.StateDeleted && db.User(vmU1).StateAt != nil, "row marked deleted")
+	all, _ := db.UserGetAll(vmU1, vmU2)
+	vmEq(t, len(all), 1, "UserGetAll skips deleted")
+	for _, s := range db.SubsOfUser(vmU1) {
+		vmTrue(t, s.DeletedAt != nil, "all own subs deleted: "+s.Topic)
+	}
+	vmTrue(t, db.Sub("grpW", vmU2).DeletedAt != nil, "subs of the owned topic deleted")
+	vmTrue(t, db.Sub("chnW", vmU3).DeletedAt == nil, "QUIRK: channel reader subs of the owned topic are not touched")
+	vmEq(t, db.Topic("grpW").State, types.StateDeleted, "owned topic deleted")
+	vmEq(t, db.Topic(p12).State, types.StateDeleted, "p2p topic deleted")
+	vmTrue(t, db.Sub(p12, vmU2).DeletedAt != nil, "other side's p2p sub deleted")
+	vmEq(t, db.Topic(p23).State, types.StateOK, "unrelated p2p untouched")
+	vmTrue(t, db.Sub(p23, vmU2).DeletedAt == nil, "unrelated p2p sub untouched")
+	vmEq(t, db.Topic("grpX").State, types.StateOK, "foreign topic untouched")
+	vmEq(t, len(db.Messages("grpW")), 1, "soft delete keeps messages")
+	_, _, _, _, err = db.AuthGetRecord(vmU1, "basic")
+	vmOK(t, err, "soft delete keeps auth records")
+	us, _ := db.UsersForTopic("grpX", false, nil)
+	vmTrue(t, len(us) == 1 && us[0].User == vmU2.String(), "UsersForTopic filters deleted users")
+	us, _ = db.UsersForTopic(p12, true, nil)
+	vmEq(t, len(us), 2, "keepDeleted shows all")
+	ts, _ := db.TopicsForUser(vmU2, false, nil)
+	names := []string{}
+	for _, s := range ts {
+		names = append(names, s.Topic)
+	}
+	vmEq(t, names, []string{"grpX", p23}, "U2's live contacts")
+
+	// Hard.
+	db, p12, p23 = vmWorld(t)
+	vmOK(t, db.UserDelete(vmU1, true), "UserDelete hard")
+	vmTrue(t, db.User(vmU1) == nil, "user row gone")
+	vmEq(t, len(db.SubsOfUser(vmU1)), 0, "own subs gone")
+	vmTrue(t, db.Topic("grpW") == nil && len(db.Messages("grpW")) == 0 && len(db.DelLog("grpW")) == 0 && len(db.TopicTags("grpW")) == 0, "owned topic gone with everything")
+	vmEq(t, len(db.SubsOf("grpW")), 0, "subs of owned topic gone")
+	vmEq(t, len(db.SubsOf("chnW")), 1, "QUIRK: channel reader subs of the owned topic stay")
+	vmTrue(t, db.Topic(p12) != nil && db.Sub(p12, vmU2) != nil && db.Sub(p12, vmU1) == nil, "p2p topic and the other side stay")
+	vmEq(t, len(db.Messages(p12)), 1, "p2p messages stay")
+	vmEq(t, len(db.Messages("grpX")), 1, "messages sent to foreign topics stay")
+	vmEq(t, len(db.DelLog("grpX")), 0, "user's soft-delete log gone")
+	_, _, _, _, err = db.AuthGetRecord(vmU1, "basic")
+	vmErrIs(t, err, types.ErrNotFound, "auth gone")
+	uid, _ := db.UserGetByCred("email", vmU1.String()+"@x")
+	vmTrue(t, uid.IsZero(), "creds gone")
+	devs, n, _ := db.DeviceGetAll(vmU1)
+	vmTrue(t, n == 0 && len(devs) == 0, "devices gone")
+	vmEq(t, len(db.UserTags(vmU1)), 0, "tags gone")
+	vmEq(t, len(db.FileLinks()), 0, "avatar links of the user and of the owned topic cascade")
+	vmEq(t, len(db.Files()), 2, "file records stay for garbage collection")
+	vmTrue(t, db.User(vmU2) != nil && db.Topic("grpX") != nil && db.Topic(p23) != nil, "others untouched")
+	vmOK(t, db.UserDelete(vmU4, true), "deleting a missing user is not an error")
+	vmOK(t, db.UserDelete(vmU4, false), "soft-deleting a missing user is not an error")
+}
+
+// ---- Journal, faults, images, dumps ---------------------------------------------------------------
+
+func TestVerifMemdbFramework(t *testing.T) {
+	defer vmDone(t)
+	db := vmNew(t)
+	vmUser(t, db, vmU1, 1)
+	vmUser(t, db, vmU2, 2)
+	vmGrp(t, db, "grpJ", vmU1, 3)
+
+	// Journal.
+	j := db.Journal()
+	vmEq(t, len(j), db.Calls(), "journal length")
+	vmEq(t, j[0], memdb.JournalEntry{Seq: 1, Name: "UserCreate", Args: vmU1.UserId() + " tags=-", Mutating: true}, "first entry")
+	vmEq(t, j[2].Name, "TopicCreate", "third entry")
+	vmEq(t, j[2].Args, "grpJ owner="+vmU1.UserId(), "TopicCreate args")
+	_, _ = db.TopicGet("grpJ")
+	_ = db.SubsDelete("grpJ", vmU2)
+	_ = db.SubsUpdate("grpJ", vmU1, map[string]any{"UpdatedAt": vmTs(9), "ReadSeqId": 3, "Private": map[string]any{"b": 1, "a": "x"}})
+	j = db.Journal()
+	vmEq(t, j[len(j)-3], memdb.JournalEntry{Seq: len(j) - 2, Name: "TopicGet", Args: "grpJ"}, "read entry")
+	vmEq(t, j[len(j)-2], memdb.JournalEntry{Seq: len(j) - 1, Name: "SubsDelete", Args: "grpJ " + vmU2.UserId(), Err: "not found", Mutating: true}, "error entry")
+	vmEq(t, j[len(j)-1].Args, "grpJ "+vmU1.UserId()+` {Private:{"a":"x","b":1},ReadSeqId:3,UpdatedAt:T}`, "map args: sorted keys, masked times")
+	j[0].Name = "tampered"
+	vmEq(t, db.Journal()[0].Name, "UserCreate", "Journal returns a copy")
+	calls := db.Calls()
+	db.ClearJournal()
+	vmTrue(t, len(db.Journal()) == 0 && db.Calls() == calls, "ClearJournal keeps the call counter")
+	vmMsg(t, db, "grpJ", 1, vmU1, "x")
+	vmEq(t, db.Journal()[0].Seq, calls+1, "Seq keeps growing")
+
+	// FailAt: k-th call from now fails, no effect, journaled.
+	boom := errors.New("boom")
+	before := db.Dump(false)
+	db.FailAt(2, boom)
+	vmOK(t, db.TopicUpdateOnMessage("grpJ", &types.Message{SeqId: 2, ObjHeader: types.ObjHeader{CreatedAt: vmTs(200)}}), "call 1 passes")
+	afterFirst := db.Dump(false)
+	vmTrue(t, afterFirst != before, "call 1 had an effect")
+	m2 := &types.Message{SeqId: 2, Topic: "grpJ", From: vmU1.String(), Content: "lost"}
+	vmErrIs(t, db.MessageSave(m2), boom, "call 2 fails")
+	vmEq(t, db.Dump(false), afterFirst, "failed call has no effect")
+	vmTrue(t, m2.Uid().IsZero(), "failed MessageSave does not assign an id")
+	last := db.Journal()[len(db.Journal())-1]
+	vmTrue(t, last.Name == "MessageSave" && last.Err == "boom" && last.Mutating, "failed call is journaled")
+	vmOK(t, db.MessageSave(m2), "call 3 passes: the plan is used up")
+	// Faults apply to reads too, results are zero values.
+	db.FailAt(1, boom)
+	tp, err := db.TopicGet("grpJ")
+	vmTrue(t, tp == nil && err == boom, "failed read")
+	// Several plans and ClearFaults.
+	db.FailAt(1, boom)
+	db.FailAt(3, boom)
+	db.ClearFaults()
+	_, err = db.TopicGet("grpJ")
+	vmOK(t, err, "ClearFaults")
+
+	// FailWhen: by name and per-name counter since installation.
+	var seen []string
+	db.FailWhen(func(name string, nth int, args string) error {
+		seen = append(seen, fmt.Sprintf("%s#%d", name, nth))
+		if name == "MessageSave" && nth == 2 && strings.HasPrefix(args, "grpJ seq=4") {
+			return boom
+		}
+		return nil
+	})
+	vmOK(t, db.MessageSave(&types.Message{SeqId: 3, Topic: "grpJ"}), "save #1")
+	_, _ = db.TopicGet("grpJ")
+	vmErrIs(t, db.MessageSave(&types.Message{SeqId: 4, Topic: "grpJ"}), boom, "save #2 fails")
+	vmOK(t, db.MessageSave(&types.Message{SeqId: 4, Topic: "grpJ"}), "save #3")
+	vmEq(t, seen, []string{"MessageSave#1", "TopicGet#1", "MessageSave#2", "MessageSave#3"}, "FailWhen consulted before every call")
+	db.FailWhen(nil)
+	vmEq(t, len(db.Messages("grpJ")), 4, "messages 1..4")
+
+	// Images: state before each mutating call; Snapshot/Restore.
+	db.ClearJournal()
+	db.SetKeepImages(true)
+	s0 := db.Snapshot()
+	d0 := db.Dump(false)
+	vmEq(t, s0.Dump(false), d0, "State.Dump == Adapter.Dump")
+	vmOK(t, db.MessageSave(&types.Message{SeqId: 5, Topic: "grpJ", Content: "five"}), "save 5")
+	d1 := db.Dump(false)
+	_, _ = db.TopicGet("grpJ")
+	db.FailAt(1, boom)
+	_ = db.MessageSave(&types.Message{SeqId: 6, Topic: "grpJ"})
+	vmOK(t, db.TopicDelete("grpJ", false, true), "delete topic")
+	j = db.Journal()
+	vmEq(t, len(j), 4, "four entries")
+	vmEq(t, db.Image(j[0].Seq).Dump(false), d0, "image before save 5")
+	vmTrue(t, db.Image(j[1].Seq) == nil, "no image for reads")
+	vmEq(t, db.Image(j[2].Seq).Dump(false), d1, "image before the failed call")
+	vmEq(t, db.Image(j[3].Seq).Dump(false), d1, "image before TopicDelete")
+	vmTrue(t, db.Dump(false) != d1 && db.Topic("grpJ") == nil, "current state moved on")
+	// Restore a crash image: the adapter continues from there, the image stays intact.
+	img := db.Image(j[3].Seq)
+	db.Restore(img)
+	vmEq(t, db.Dump(false), d1, "restored")
+	vmOK(t, db.MessageSave(&types.Message{SeqId: 6, Topic: "grpJ"}), "save after restore")
+	vmEq(t, img.Dump(false), d1, "Restore copies: image not aliased with live tables")
+	vmEq(t, db.Image(j[3].Seq).Dump(false), d1, "stored image intact")
+	m6 := db.Messages("grpJ")[5]
+	vmEq(t, m6.Uid(), types.Uid(6), "AUTO_INCREMENT counter restored with the state")
+	db.Restore(s0)
+	vmEq(t, db.Dump(false), d0, "Restore(snapshot)")
+	db.SetKeepImages(false)
+	vmTrue(t, db.Image(j[0].Seq) == nil, "SetKeepImages(false) drops images")
+
+	// Dump: deterministic, masked times, table filter, equality.
+	a1, a2 := vmNew(t), vmNew(t)
+	build := func(db *memdb.Adapter, shift int, swap bool) {
+		for _, uid := range []types.Uid{vmU1, vmU2} {
+			var u types.User
+			u.SetUid(uid)
+			u.CreatedAt, u.UpdatedAt = vmTs(1+shift), vmTs(2+shift)
+			u.Public = vmPublic{Fn: "same"}
+			vmOK(t, db.UserCreate(&u), "UserCreate")
+		}
+		mk := []func(){
+			func() { vmGrp(t, db, "grpD1", vmU1, 3+shift, "t1") },
+			func() { vmGrp(t, db, "grpD2", vmU2, 4+shift, "t2") },
+		}
+		if swap {
+			mk[0], mk[1] = mk[1], mk[0]
+		}
+		mk[0]()
+		mk[1]()
+		vmMsg(t, db, "grpD1", 1, vmU1, vmPublic{Fn: "c"})
+	}
+	build(a1, 0, false)
+	build(a2, 1000, true)
+	vmTrue(t, a1.Dump(false) != a2.Dump(false), "different times: different dumps")
+	// 'sys' topic and avatar-less rows carry TimeNow stamps: masked dumps are equal although insertion order differs.
+	vmEq(t, a1.Dump(true), a2.Dump(true), "masked dumps equal regardless of times and of insertion order of unrelated rows")
+	vmOK(t, a2.SubsUpdate("grpD1", vmU1, map[string]any{"ReadSeqId": 1}), "diverge")
+	vmTrue(t, a1.Dump(true) != a2.Dump(true), "dumps differ after divergence")
+	vmEq(t, a1.DumpTables(true, "messages", "usertags"), a2.DumpTables(true, "messages", "usertags"), "untouched tables still equal")
+	only := a1.DumpTables(true, "messages")
+	vmEq(t, only, "messages topic=grpD1 seqid=0000000001 createdat=T updatedat=T deletedat=- delid=0 from="+vmU1.UserId()+
+		` head={"mime":"text/plain"} content={"fn":"c","count":0}`+"\n", "one line per row")
+	for _, line := range strings.Split(strings.TrimSpace(a1.Dump(true)), "\n") {
+		tbl := strings.SplitN(line, " ", 2)[0]
+		ok := false
+		for _, n := range memdb.TableNames {
+			ok = ok || n == tbl
+		}
+		vmTrue(t, ok, "every line starts with a table name: "+line)
+	}
+}
+
+// ---- Through the store package (what the server does) ------------------------------------------------
+
+func TestVerifMemdbViaStore(t *testing.T) {
+	defer vmDone(t)
+	func() {
+		defer func() { recover() }() // somebody else may have registered it already
+		store.RegisterAdapter(memdb.New())
+	}()
+	vmOK(t, store.Store.Open(1, []byte(`{"uid_key":"la6YsO+bNX/+XIkOqc5Svw==","use_adapter":"memdb","max_results":50}`)), "store.Open")
+	defer store.Store.Close()
+	db, ok := store.Store.GetAdapter().(*memdb.Adapter)
+	vmTrue(t, ok, "store uses memdb")
+	db.Reset()
+	vmOK(t, db.CreateDb(true), "CreateDb")
+	t.Cleanup(func() { vmCollect(db) })
+	vmEq(t, store.Store.GetAdapterName(), "memdb", "adapter name")
+	vmEq(t, store.Store.GetDbVersion(), store.Store.GetAdapterVersion(), "versions match")
+
+	alice, err := store.Users.Create(&types.User{Access: types.DefaultAccess{Auth: types.ModeCAuth}, Public: vmPublic{Fn: "alice"}, Tags: types.StringSlice{"alice"}}, "priv")
+	vmOK(t, err, "Users.Create alice")
+	bob, err := store.Users.Create(&types.User{Access: types.DefaultAccess{Auth: types.ModeCAuth}, Public: vmPublic{Fn: "bob"}}, nil)
+	vmOK(t, err, "Users.Create bob")
+	vmTrue(t, db.Sub(alice.Uid().UserId(), alice.Uid()) != nil && db.Sub(alice.Uid().FndName(), alice.Uid()) != nil, "me and fnd subscriptions")
+
+	grp := &types.Topic{ObjHeader: types.ObjHeader{Id: "grpStore"}, Access: types.DefaultAccess{Auth: types.ModeCPublic}}
+	grp.GiveAccess(alice.Uid(), types.ModeCFull, types.ModeCFull)
+	vmOK(t, store.Topics.Create(grp, alice.Uid(), "owner-priv"), "Topics.Create")
+	vmEq(t, db.Topic("grpStore").Owner, alice.Id, "owner")
+	vmOK(t, store.Subs.Create(&types.Subscription{User: bob.Id, Topic: "grpStore", ModeWant: types.ModeCPublic, ModeGiven: types.ModeCPublic}), "Subs.Create")
+
+	msg := &types.Message{SeqId: 1, Topic: "grpStore", From: alice.Id, Content: "hello"}
+	err, read := store.Messages.Save(msg, nil, true)
+	vmTrue(t, err == nil && read, "Messages.Save")
+	vmEq(t, db.Sub("grpStore", alice.Uid()).ReadSeqId, 1, "read by sender")
+	vmEq(t, db.Topic("grpStore").SeqId, 1, "topic seqid")
+	vmOK(t, store.Messages.DeleteList("grpStore", 1, bob.Uid(), []types.Range{{Low: 1}}), "soft delete through store")
+	vmTrue(t, db.Topic("grpStore").DelId == 1 && db.Sub("grpStore", bob.Uid()).DelId == 1 && db.Sub("grpStore", alice.Uid()).DelId == 0, "delid bookkeeping")
+	msgs, _ := store.Messages.GetAll("grpStore", bob.Uid(), nil)
+	vmEq(t, len(msgs), 0, "hidden for bob")
+	ranges, maxID, err := store.Messages.GetDeleted("grpStore", bob.Uid(), nil)
+	vmTrue(t, err == nil && maxID == 1 && len(ranges) == 1 && ranges[0].Low == 1, "GetDeleted through store")
+
+	// QUIRK of SubscriptionGet with a real uid generator: decimal of the decoded id.
+	sg, err := store.Subs.Get("grpStore", bob.Uid(), false)
+	vmOK(t, err, "Subs.Get")
+	vmEq(t, sg.User, fmt.Sprint(store.DecodeUid(bob.Uid())), "SubscriptionGet user is the decoded id")
+
+	cnt, err := store.Users.GetUnreadCount(alice.Uid(), bob.Uid())
+	vmOK(t, err, "GetUnreadCount")
+	vmEq(t, cnt, map[types.Uid]int{alice.Uid(): 0, bob.Uid(): 1}, "unread")
+	vmOK(t, store.Users.UpdateState(alice.Uid(), types.StateSuspended), "UpdateState")
+	vmEq(t, db.Topic("grpStore").State, types.StateSuspended, "owner's topic suspended")
+	vmOK(t, store.Users.Delete(bob.Uid(), false), "Users.Delete soft")
+	gone, err := store.Users.Get(bob.Uid())
+	vmTrue(t, gone == nil && err == nil, "soft-deleted user")
+
+	// Restart: data stays.
+	vmOK(t, store.Store.Close(), "Close")
+	vmOK(t, store.Store.Open(1, []byte(`{"uid_key":"la6YsO+bNX/+XIkOqc5Svw==","use_adapter":"memdb"}`)), "reopen")
+	tp, err := store.Topics.Get("grpStore")
+	vmTrue(t, err == nil && tp != nil && tp.SeqId == 1, "data survives restart")
+}
+
+// ---- every data access method of the interface has been exercised ------------------------------------
+
+func TestVerifMemdbZCoverage(t *testing.T) {
+	defer vmDone(t)
+	notJournaled := map[string]bool{"Open": true, "Close": true, "IsOpen": true, "GetName": true, "Version": true, "GetDbVersion": true,
+		"CheckDbVersion": true, "SetMaxResults": true, "CreateDb": true, "UpgradeDb": true, "Stats": true}
+	typ := reflect.TypeOf((*interface {
+		adapterMethods
+	})(nil)).Elem()
+	n := 0
+	for i := 0; i < typ.NumMethod(); i++ {
+		name := typ.Method(i).Name
+		if notJournaled[name] {
+			continue
+		}
+		n++
+		if !vmSeen[name] {
+			t.Errorf("adapter method %s was never called by the self-test", name)
+		}
+	}
+	vmEq(t, n, 56, "number of journaled adapter methods")
+	vmEq(t, typ.NumMethod(), 67, "number of adapter methods")
 }
